@@ -41,7 +41,7 @@ def fresh(prog, f, tr, e):
 def run(prog, rep):
     rep.rule("C15.N1", "debug attributes are only ever added to a fresh attribute set")
     n1 = 0
-    for f in sorted(prog.fns.values(), key=lambda x: x.id):
+    for f in sorted(prog.shape_fns(), key=lambda x: x.id):
         if f.body is None or f.crate.prefix != "tsg":
             continue
         body = f.body
@@ -99,7 +99,7 @@ def run(prog, rep):
     bad = sorted(r for r in readers["lazy"] if not allowed_lazy.search(r))
     rep.check(not bad and readers["lazy"], "C15.N2", "readers of lazy", "", "mode flag read only by execute_into (and copied by the drivers/builders)", "config.lazy is also read by %s" % bad)
     fields = [fd["name"] for fd in prog.adts[CFG]["variants"][0]["fields"]]
-    for f in prog.fns.values():
+    for f in prog.shape_fns():
         if f.self_path == CFG and f.name in ("lazy", "debug_attributes") and f.body is not None:
             tr = Tracer(f.body)
             sets = {"lazy": {"lazy"}, "debug_attributes": set(DEBUG_FIELDS)}[f.name]
@@ -116,7 +116,7 @@ def run(prog, rep):
                                 ok = c == "arg:self.%s" % fld
                                 msg = "kept from self"
                             rep.check(ok, "C15.N2", "ExecutionConfig::%s :: field %s" % (f.name, fld), f.loc(), msg, "builder %s() sets field `%s` to `%s` instead of %s" % (f.name, fld, c[:80], "its argument" if fld in sets else "keeping self.%s" % fld))
-    for f in prog.fns.values():
+    for f in prog.shape_fns():
         if f.name in ("execute_strict_into", "execute_lazy_into") and f.body is not None:
             tr = Tracer(f.body)
             for b in sorted(f.body.reachable()):
@@ -132,7 +132,7 @@ def run(prog, rep):
     rep.rule("C15.N3", "what is written: variable text, `line row+1 column column+1` of the variable / the edge statement, the full-match syntax node; same in both modes")
     loc_pat = r'Arguments::new\(&\*b"\\x05line \\xc0\\x08 column \\xc0\\x00", &array\{Argument::new_display\(&\(\*?%s\.row AddWithOverflow 1_usize\)\.0\), Argument::new_display\(&\(\*?%s\.column AddWithOverflow 1_usize\)\.0\)\}\)'
     for ty, nm in (("tsg::ast::CreateEdge", "add_debug_attrs"), ("tsg::ast::Variable", "add_debug_attrs")):
-        fl = [f for f in prog.fns.values() if f.self_path == ty and f.name == nm]
+        fl = [f for f in prog.shape_fns() if f.self_path == ty and f.name == nm]
         if len(fl) != 1:
             rep.violation("C15.N3", "anchor-lost:%s::%s" % (ty, nm), "", "not found")
             continue
@@ -161,7 +161,7 @@ def run(prog, rep):
     # the variable's text is its Display: it may depend only on what the parser read from the source text (name / scope),
     # not on what later analyses attached to the node (quantifier, capture indices, location)
     for ty, allowed in (("tsg::ast::UnscopedVariable", {"name"}), ("tsg::ast::ScopedVariable", {"scope", "name"}), ("tsg::ast::Capture", {"name"})):
-        fl = [f for f in prog.fns.values() if f.self_path == ty and f.trait == "std::fmt::Display" and f.name == "fmt"]
+        fl = [f for f in prog.shape_fns() if f.self_path == ty and f.trait == "std::fmt::Display" and f.name == "fmt"]
         if len(fl) != 1:
             rep.violation("C15.N3", "anchor-lost:Display for %s" % ty, "", "not found")
             continue
@@ -189,7 +189,7 @@ def run(prog, rep):
                   "the printed form of %s also depends on %s: the variable-name debug attribute is no longer the variable's text" % (ty.rsplit("::", 1)[-1], sorted(read - allowed)))
     feats = {}
     for mode, nm, idx in (("strict", "execute", "full_match_stanza_capture_index"), ("lazy", "execute_lazy", "full_match_file_capture_index")):
-        fl = [f for f in prog.fns.values() if f.self_path == "tsg::ast::CreateGraphNode" and f.name == nm]
+        fl = [f for f in prog.shape_fns() if f.self_path == "tsg::ast::CreateGraphNode" and f.name == nm]
         if len(fl) != 1:
             rep.violation("C15.N3", "anchor-lost:CreateGraphNode::%s" % nm, "", "not found")
             continue
@@ -216,7 +216,7 @@ def run(prog, rep):
         rep.check(feats["strict"] == feats["lazy"], "C15.N3", "strict=lazy :: node debug attributes", "", "same insertions in both modes", "strict %s vs lazy %s" % (feats["strict"], feats["lazy"]))
     # edge: statement's own location in both modes
     for mode, ty, nm in (("strict", "tsg::ast::CreateEdge", "execute"), ("lazy", "tsg::ast::CreateEdge", "execute_lazy")):
-        fl = [f for f in prog.fns.values() if f.self_path == ty and f.name == nm]
+        fl = [f for f in prog.shape_fns() if f.self_path == ty and f.name == nm]
         if len(fl) == 1:
             f = fl[0]
             tr = Tracer(f.body)
@@ -249,7 +249,7 @@ def run(prog, rep):
     C03.index_space(prog, Filtered(rep, lambda rule, key: "full_match" in key))
     rep.floor("E3.x", len(rep.items) - n_before, 16, "full-match index initialisations")
     # lazy: the collected attribute set is what a new edge receives
-    fl = [f for f in prog.fns.values() if f.self_path == "tsg::execution::lazy::statements::LazyCreateEdge" and f.name == "evaluate"]
+    fl = [f for f in prog.shape_fns() if f.self_path == "tsg::execution::lazy::statements::LazyCreateEdge" and f.name == "evaluate"]
     if len(fl) == 1:
         f = fl[0]
         tr = Tracer(f.body)
